@@ -79,6 +79,10 @@ pub enum Op {
     /// the item returned by slot.remove_at(pos) is put back as it came: how 0 = dst.insert_at(dst_pos),
     /// 1 = dst = merge(dst, from_item(item)), 2 = dst = merge(from_item(item), dst)
     MoveItem { slot: usize, pos: usize, dst: usize, dst_pos: usize, how: u8 },
+    /// an item that already carries a pending modification x -> a*x + b (attached to it while it
+    /// is outside any treap, e.g. through its own setter) is inserted: how as in MoveItem.  With
+    /// `from` = Some(pos) the item is the one remove_at(pos) returned ("move and bump"), else fresh.
+    TaggedInsert { slot: usize, from: Option<usize>, dst: usize, dst_pos: usize, how: u8, value: u64, a: u64, b: u64 },
     /// (l, r) = src.split_at(pos); src = l; dst = merge(r, dst); with dst == src: src = merge(r, l)
     SplitMove { src: usize, pos: usize, dst: usize, node_api: bool },
     /// same through split_by; `threshold` asks for a value-threshold predicate when the
@@ -107,6 +111,7 @@ impl Op {
             Op::ManualInsert { .. } => "manual_insert",
             Op::RemoveAt { .. } => "remove_at",
             Op::MoveItem { .. } => "move_item",
+            Op::TaggedInsert { .. } => "tagged_insert",
             Op::SplitMove { .. } => "split_at",
             Op::SplitByMove { .. } => "split_by",
             Op::Merge { .. } => "merge",
@@ -127,6 +132,13 @@ impl Op {
             Op::ManualInsert { slot, pos, value, priority } => o.with("slot", Json::u(*slot)).with("pos", Json::u(*pos)).with("value", Json::n(*value)).with("priority", Json::n(*priority)),
             Op::RemoveAt { slot, pos } => o.with("slot", Json::u(*slot)).with("pos", Json::u(*pos)),
             Op::MoveItem { slot, pos, dst, dst_pos, how } => o.with("slot", Json::u(*slot)).with("pos", Json::u(*pos)).with("dst", Json::u(*dst)).with("dst_pos", Json::u(*dst_pos)).with("how", Json::n(*how)),
+            Op::TaggedInsert { slot, from, dst, dst_pos, how, value, a, b } => {
+                let o = o.with("slot", Json::u(*slot)).with("dst", Json::u(*dst)).with("dst_pos", Json::u(*dst_pos)).with("how", Json::n(*how)).with("value", Json::n(*value)).with("a", Json::n(*a)).with("b", Json::n(*b));
+                match from {
+                    Some(p) => o.with("from", Json::u(*p)),
+                    None => o,
+                }
+            }
             Op::SplitMove { src, pos, dst, node_api } => o.with("src", Json::u(*src)).with("pos", Json::u(*pos)).with("dst", Json::u(*dst)).with("node_api", Json::Bool(*node_api)),
             Op::SplitByMove { src, pos, dst, threshold, node_api } => {
                 o.with("src", Json::u(*src)).with("pos", Json::u(*pos)).with("dst", Json::u(*dst)).with("threshold", Json::Bool(*threshold)).with("node_api", Json::Bool(*node_api))
@@ -148,6 +160,7 @@ impl Op {
             "manual_insert" => Op::ManualInsert { slot: u("slot")?, pos: u("pos")?, value: v("value")?, priority: v("priority")? as u32 },
             "remove_at" => Op::RemoveAt { slot: u("slot")?, pos: u("pos")? },
             "move_item" => Op::MoveItem { slot: u("slot")?, pos: u("pos")?, dst: u("dst")?, dst_pos: u("dst_pos")?, how: v("how")? as u8 },
+            "tagged_insert" => Op::TaggedInsert { slot: u("slot")?, from: u("from"), dst: u("dst")?, dst_pos: u("dst_pos")?, how: v("how")? as u8, value: v("value")?, a: v("a")?, b: v("b")? },
             "split_at" => Op::SplitMove { src: u("src")?, pos: u("pos")?, dst: u("dst")?, node_api: b("node_api") },
             "split_by" => Op::SplitByMove { src: u("src")?, pos: u("pos")?, dst: u("dst")?, threshold: b("threshold"), node_api: b("node_api") },
             "merge" => Op::Merge { a: u("a")?, b: u("b")?, node_api: b("node_api") },
@@ -375,6 +388,7 @@ pub const PROBES: &[&str] = &[
     "rotation_split_swap",
     "remove_at_checked",
     "removed_item_reinserted",
+    "item_with_pending_modification_inserted",
     "node_level_collect_into",
     "node_level_push_on_live_node",
     "nonidentity_push_in_node_poke",
@@ -515,6 +529,55 @@ fn apply(pool: &mut Pool, op: &Op, st: &mut ExecStats) -> Result<(), (&'static s
             }
             if seen != want {
                 return Err(("result", format!("remove_at({}) returned element (uid {}, value {}) but the sequence has (uid {}, value {}) there", p, seen.0, seen.1, want.0, want.1)));
+            }
+        }
+        Op::TaggedInsert { slot, from, dst, dst_pos, how, value, a, b } => {
+            let (s, d) = (slot % POOL, dst % POOL);
+            let (mut item, old) = match from {
+                Some(pos) => {
+                    if pool.model[s].is_empty() || (s != d && pool.model[d].len() >= 2 * pool.max_len) {
+                        return Ok(());
+                    }
+                    let p = pos % pool.model[s].len();
+                    let got = pool.treaps[s].remove_at(p);
+                    let want = pool.model[s].remove(p);
+                    pool.last_mod[s] = None;
+                    if (got.uid, got.x) != want {
+                        return Err(("result", format!("remove_at({}) returned element (uid {}, value {}) but the sequence has (uid {}, value {}) there", p, got.uid, got.x, want.0, want.1)));
+                    }
+                    (got, want)
+                }
+                None => {
+                    if pool.model[d].len() >= pool.max_len {
+                        return Ok(());
+                    }
+                    let uid = pool.next_uid;
+                    pool.next_uid += 1;
+                    (It::new(uid, *value), (uid, *value % P))
+                }
+            };
+            // the modification is attached to the item while it is outside every treap
+            item.modify(*a % P, *b % P);
+            let now = (old.0, crate::item::addmod(crate::item::mulmod(*a % P, old.1), *b % P));
+            pool.last_mod[d] = None;
+            hit(st, "item_with_pending_modification_inserted");
+            push_probe = "nonidentity_push_in_insert_remove";
+            match how % 3 {
+                0 => {
+                    let q = dst_pos % (pool.model[d].len() + 1);
+                    pool.treaps[d].insert_at(q, item);
+                    pool.model[d].insert(q, now);
+                }
+                1 => {
+                    let cur = take(&mut pool.treaps[d]);
+                    pool.treaps[d] = Treap::merge(cur, Treap::from_item(item));
+                    pool.model[d].push(now);
+                }
+                _ => {
+                    let cur = take(&mut pool.treaps[d]);
+                    pool.treaps[d] = Treap::merge(Treap::from_item(item), cur);
+                    pool.model[d].insert(0, now);
+                }
             }
         }
         Op::SplitMove { src, pos, dst, node_api } => {
